@@ -1,3 +1,5 @@
+import FormulaicVerif.Model.Contrasts
+import FormulaicVerif.Gen.ContrastFormats
 /-! # Reuse of a recorded `ModelSpec` on new data  (property C09)
 
 Mirrors, as written, the path `ModelSpec.get_model_matrix(new_data)` →
@@ -10,6 +12,13 @@ Mirrors, as written, the path `ModelSpec.get_model_matrix(new_data)` →
   `_encode_evaled_factor` with the encoder state of the REAL spec, `encode_contrasts` with pinned
   levels and its `DataMismatchWarning` condition (`transforms/contrasts.py`),
   `_get_columns_for_term`                                                    → `encodeFactor`, `termColumns`
+* the arguments of a `C(data, contrasts, levels=…)` call and what `encode_contrasts` /
+  `Contrasts.apply` make of them on reuse: explicit `levels=`, `CustomContrasts.__init__` (dict /
+  array / `names=`; its `ValueError`/`IndexError`), `_find_base_index`, the coding matrices of
+  `contr.treatment/SAS/sum/helmert/diff/poly` (taken from `Model/Contrasts.lean`, property C11),
+  `get_coding_column_names`, the name formats (generated table `Gen/ContrastFormats.lean`), the
+  empty short-circuit and `dummies @ coding_matrix`                          → `Contr`, `customInit`, `codedColumns`
+* `ModelSpec.get_model_matrix(data, **attr_overrides)`                       → `Overrides`, `replayWith`
 * `_enforce_structure`                                                       → `enforceTerm`
 * histories between fit and reuse — `ModelSpec.subset` (`model_spec.py`), one part of a
   `ModelSpecs` used alone, a pickle round trip                               → `subsetSpec`, `derive`, `replayDerived`
@@ -20,7 +29,9 @@ Python dictionaries are association lists: `dget` returns the FIRST match, `d.up
 What enters as data (parameters): for every column of the new frame its kind as classified by
 `_is_categorical` (generated table `Gen/KindTable.lean`, C08), its cells and — for a `category`
 dtype — its declared categories; the order in which the pooled `set` of factors is iterated.
-Treatment coding only (the default contrasts, also of `C(x)`). Core Lean only. -/
+The `1/sqrt(norms2)` normalisation of `contr.poly` (libm) enters as a table of normalised coding
+matrices per level count (`Contr.poly … tables`); every other coding matrix is computed here.
+Core Lean only. -/
 namespace FormulaicVerif.Model.Reuse
 
 /-! ### basic types -/
@@ -42,7 +53,7 @@ abbrev Cell := Option Val
 inductive NaAction | drop | raise | ignore
 deriving DecidableEq, Repr
 
-inductive Output | pandas | numpy | sparse
+inductive Output | pandas | numpy | sparse | narwhals     -- `narwhals`: of the narwhals materializer only
 deriving DecidableEq, Repr
 
 /-- exception classes the modelled path can raise -/
@@ -54,6 +65,8 @@ inductive Err
   | keyError           -- `factor_values[expr]` in `ScopedTerm.rehydrate`, `scoped_cols[col]`
   | typeError          -- `functools.reduce` of nothing; also the sentinel for a non-number cell in a
                        --   numerical column (NOT MODELLED: pandas passes such cells through)
+  | indexError         -- `contrasts.shape[1]` of a one-axis array in `CustomContrasts.__init__`;
+                       --   `self[context]` past the last part in `ModelSpecs.subset`
 deriving DecidableEq, Repr
 
 /-- first match of a key (a Python dict has one entry per key) -/
@@ -77,12 +90,82 @@ def mapE {α β} (f : α → Except Err β) : List α → Except Err (List β)
 
 /-! ### the recorded spec -/
 
+/-! ### the arguments of a `C(...)` call -/
+
+/-- what is handed to `CustomContrasts.__init__(contrasts, names)` -/
+structure CustomArg where
+  isDict : Bool                  -- a `dict` key → weight vector over the levels, or an array (rows = levels)
+  vectors : List (List Rat)      -- dict: the values in key order; array: the rows
+  keys : List String             -- dict: the keys, printed with `str` (`[]` for an array)
+  names : Option (List String)   -- the `names=` argument, printed
+  viaCtor : Bool                 -- written `contr.custom(…)` inside the factor (the object is built while the
+                                 --   factor is evaluated) or handed to `C` as is (built inside `encode_contrasts`)
+deriving DecidableEq, Repr
+
+/-- the `contrasts` argument of `C` / `encode_contrasts` -/
+inductive Contr
+  | default                                       -- `None`: `TreatmentContrasts()`
+  | treatment (sas : Bool) (base : Option Val)    -- `contr.treatment(base)` / `contr.SAS(base)`; `none` = UNSET
+  | sum
+  | helmert (reverse scale : Bool)
+  | diff (backward : Bool)
+  | poly (scores : Option (List Rat)) (tables : List (Nat × List (List Rat)))
+        -- `tables`: PARAMETER — for a level count `n` the coding matrix `poly(scores, degree=n-1)[:, 1:]`
+        -- as the real code normalised it (column `k` divided by `sqrt(norms2[k])`)
+  | custom (a : CustomArg)
+deriving DecidableEq, Repr
+
 /-- how a factor obtains its values -/
 inductive Via
   | lookup              -- a bare name: `_lookup`
-  | cwrap               -- `C(name)`: python evaluation, values marked categorical, with an encoder
+  | cwrap (c : Contr) (levels : Option (List Val))
+                        -- `C(name, contrasts, levels=…)`: python evaluation, values marked categorical, with an encoder
   | literal (v : Rat)   -- a numeric literal: `ast.literal_eval`, kind CONSTANT
 deriving DecidableEq, Repr
+
+/-- `self.contrasts`, its number of columns and `self.contrast_names` after `CustomContrasts.__init__` -/
+structure CustomM where
+  rows : List (List Rat)          -- one row per level
+  ncols : Nat                     -- `contrasts.shape[1]`
+  names : Option (List String)    -- `contrast_names`
+deriving DecidableEq, Repr
+
+/-- `numpy.array(nested lists)` accepts rows of one common length only (else: ValueError, inhomogeneous shape) -/
+def rectangular : List (List Rat) → Bool
+  | [] => true
+  | v :: r => r.all (fun w => w.length == v.length)
+
+/-- `array.T` of `k` vectors of length `m`: `m` rows of `k` entries -/
+def transposeRows (vs : List (List Rat)) (m : Nat) : List (List Rat) :=
+  (List.range m).map (fun i => vs.filterMap (fun v => v[i]?))
+
+/-- `CustomContrasts.__init__(contrasts, names)`:
+`dict` → `names = names or list(dict)`, `contrasts = numpy.array([*dict.values()]).T`; otherwise
+`numpy.array(contrasts)`; then `names is not None and len(names) != contrasts.shape[1]` → ValueError.
+An empty dict gives a one-axis array, on which `contrasts.shape[1]` is an IndexError (so does an
+empty array when `names` is given). -/
+def customInit (a : CustomArg) : Except Err CustomM :=
+  if !rectangular a.vectors then .error .valueError
+  else if a.isDict then
+    match a.vectors with
+    | [] => .error .indexError
+    | v :: _ =>
+      let names := match a.names with | some ns => ns | none => a.keys
+      if names.length ≠ a.vectors.length then .error .valueError
+      else .ok ⟨transposeRows a.vectors v.length, a.vectors.length, some names⟩
+  else
+    match a.vectors, a.names with
+    | [], some _ => .error .indexError
+    | [], none => .ok ⟨[], 0, none⟩
+    | v :: _, some ns => if ns.length ≠ v.length then .error .valueError else .ok ⟨a.vectors, v.length, some ns⟩
+    | v :: _, none => .ok ⟨a.vectors, v.length, none⟩
+
+/-- what evaluating the `contrasts` argument inside the factor can raise: `contr.custom(…)` runs
+`CustomContrasts.__init__` during factor evaluation; a dict / array literal is only wrapped later, inside
+`encode_contrasts`; the built-in classes take their options without looking at them -/
+def ctorCheck : Contr → Except Err Unit
+  | .custom a => if a.viaCtor then (match customInit a with | .error e => .error e | .ok _ => .ok ()) else .ok ()
+  | _ => .ok ()
 
 /-- a `Factor` of the formula -/
 structure FactorDecl where
@@ -198,10 +281,13 @@ def evalValue (fr : Frame) (d : FactorDecl) : Except Err (Kind × NewCol) :=
     match dget d.column fr.cols with
     | none => .error .factorEvaluation          -- NameError wrapped into FactorEvaluationError
     | some c => .ok (c.kind, c)
-  | .cwrap =>
-    match dget d.column fr.cols with
-    | none => .error .factorEvaluation
-    | some c => .ok (.categorical, c)           -- `C()` returns FactorValues(kind="categorical")
+  | .cwrap c _ =>
+    match ctorCheck c with
+    | .error _ => .error .factorEvaluation      -- any exception of the evaluation is wrapped
+    | .ok () =>
+      match dget d.column fr.cols with
+      | none => .error .factorEvaluation
+      | some col => .ok (.categorical, col)     -- `C()` returns FactorValues(kind="categorical")
 
 /-- first guard: `factor.kind is not UNKNOWN and factor.kind is not value.kind` →
 a declared CATEGORICAL overrides, anything else raises -/
@@ -256,13 +342,18 @@ def evalFactor (es : EvalSpec) (fr : Frame) (d : FactorDecl) (drop : List Nat) :
 
 abbrev Cache := List (String × Evaled)
 
-/-- Step 1 of `get_model_matrix`: `for factor in factors: self._evaluate_factor(…)` -/
+/-- Step 1 of `get_model_matrix`: `for factor in factors: self._evaluate_factor(…)`; a factor whose
+expression is already a key of `factor_cache` is NOT evaluated again (`if factor.expr not in
+self.factor_cache`) — neither guard runs for it -/
 def evalPhase (es : EvalSpec) (fr : Frame) : List FactorDecl → Cache → List Nat → Except Err (Cache × List Nat)
   | [], cache, drop => .ok (cache, drop)
   | d :: r, cache, drop =>
-    match evalFactor es fr d drop with
-    | .error e => .error e
-    | .ok (ev, drop') => evalPhase es fr r (cache ++ [(d.expr, ev)]) drop'
+    match dget d.expr cache with
+    | some _ => evalPhase es fr r cache drop
+    | none =>
+      match evalFactor es fr d drop with
+      | .error e => .error e
+      | .ok (ev, drop') => evalPhase es fr r (cache ++ [(d.expr, ev)]) drop'
 
 /-- the pooled factors in the order Python iterates the set -/
 def orderedFactors (specs : List Spec) (order : List String) : List FactorDecl :=
@@ -292,9 +383,35 @@ def Val.render : Val → String
   | .num q => if q.den = 1 then toString q.num else toString q.num ++ "/" ++ toString q.den
   | .bool b => if b then "True" else "False"
 
+/-- class of the contrast object `encode_contrasts` works with (key of the generated format table) -/
+def Contr.cls : Contr → String
+  | .default => "TreatmentContrasts"
+  | .treatment false _ => "TreatmentContrasts"
+  | .treatment true _ => "SASContrasts"
+  | .sum => "SumContrasts"
+  | .helmert _ _ => "HelmertContrasts"
+  | .diff _ => "DiffContrasts"
+  | .poly _ _ => "PolyContrasts"
+  | .custom _ => "CustomContrasts"
+
+/-- `get_factor_format(levels, reduced_rank)`: `FACTOR_FORMAT_REDUCED if reduced_rank else FACTOR_FORMAT`,
+read from the GENERATED table of the live classes (`Contrasts.FACTOR_FORMAT` for an unknown class) -/
+def formatOf (cls : String) (reduced : Bool) : FormulaicVerif.Gen.NameFormat :=
+  match FormulaicVerif.Gen.contrastFormats.find? (fun r => r.cls == cls) with
+  | some r => if reduced then r.reduced else r.full
+  | none => ⟨"", "[", "]"⟩
+
+/-- `fmt.format(name=name, field=field)` -/
+def renderName (f : FormulaicVerif.Gen.NameFormat) (name field : String) : String :=
+  f.pre ++ name ++ f.mid ++ field ++ f.post
+
+/-- the name of one encoded column of factor `expr` under contrast `c` -/
+def fieldName (c : Contr) (expr : String) (reduced : Bool) (field : String) : String :=
+  renderName (formatOf c.cls reduced) expr field
+
 /-- `"{name}[{field}]"` / `"{name}[T.{field}]"` (treatment coding, the default contrasts) -/
 def levelName (expr : String) (reduced : Bool) (l : Val) : String :=
-  expr ++ (if reduced then "[T." else "[") ++ l.render ++ "]"
+  fieldName .default expr reduced l.render
 
 /-- one dummy column -/
 def indicator (l : Val) (c : Cell) : Option Rat := if c = some l then some 1 else some 0
@@ -324,11 +441,18 @@ def freshLevels (cats : Option (List Val)) (cells : List Cell) : List Val :=
   | some cs => cs
   | none => cells.foldl (fun acc c => match c with | none => acc | some v => insertLevel v acc) []
 
-/-- the levels `encode_contrasts` uses and whether it warns: `levels = _state.get("categories")` -/
-def pinnedLevels (pinned : Option (List Val)) (cats : Option (List Val)) (cells : List Cell) : List Val × Bool :=
+def hasDupVal : List Val → Bool
+  | [] => false
+  | l :: ls => ls.contains l || hasDupVal ls
+
+/-- the levels `encode_contrasts` uses and whether it warns: nominated levels go through
+`pandas.Categorical(data, categories=levels)` (ValueError when they are not unique) and everything
+that is not recoded is reported; without nominated levels the data decide -/
+def pinnedLevels (pinned : Option (List Val)) (cats : Option (List Val)) (cells : List Cell) :
+    Except Err (List Val × Bool) :=
   match pinned with
-  | some ls => (ls, hasUnseen ls cells)
-  | none => (freshLevels cats cells, false)
+  | some ls => if hasDupVal ls then .error .valueError else .ok (ls, hasUnseen ls cells)
+  | none => .ok (freshLevels cats cells, false)
 
 /-- dummy coding of retained cells against `levels`; the reduced-rank form drops the first level
 (both for the `_encode_categorical` path — full dummies, then `del encoded[drop_field]` — and for
@@ -345,6 +469,163 @@ def numCell : Cell → Except Err (Option Rat)
   | some (.bool b) => .ok (some (if b then 1 else 0))
   | some (.str _) => .error .typeError
 
+/-! ### `Contrasts.apply` for an arbitrary contrast -/
+
+/-- "Short-circuit when we know the output encoding will be empty" -/
+def shortCircuit (L : List Val) (reduced : Bool) : Bool := L.isEmpty || (L.length == 1 && reduced)
+
+def indexOfVal (b : Val) : List Val → Option Nat
+  | [] => none
+  | l :: ls => if l = b then some 0 else (indexOfVal b ls).map (· + 1)
+
+/-- `_find_base_index`: 0 (treatment) / `len(levels) - 1` (SAS) when `base` is UNSET, else
+`levels.index(base)` with its ValueError -/
+def findBase (sas : Bool) (base : Option Val) (L : List Val) : Except Err Nat :=
+  match base with
+  | none => .ok (if sas then L.length - 1 else 0)
+  | some b =>
+    match indexOfVal b L with
+    | some i => .ok i
+    | none => .error .valueError
+
+/-- `numpy.eye(n)` as rows -/
+def eyeRows (n : Nat) : List (List Rat) := Contrasts.toRows Contrasts.eye n n
+
+/-- `_get_coding_matrix(levels, reduced_rank)`, one row per level. The built-in matrices are the
+entry functions of `Model/Contrasts.lean` (C11 proves them equal to the textbook codings); the
+polynomial one is looked up in the parameter table after the cardinality check of the scores (the
+unnormalised three-term recurrence stands in when the table has no entry for this level count);
+a custom contrast returns its array whatever the levels. -/
+def codingMatrix (c : Contr) (L : List Val) (reduced : Bool) : Except Err (List (List Rat)) :=
+  let n := L.length
+  match c with
+  | .custom a =>
+    match customInit a with
+    | .error e => .error e
+    | .ok m => .ok m.rows
+  | .default => .ok (if reduced then Contrasts.toRows (Contrasts.coding (.treatment 0) n) n (n - 1) else eyeRows n)
+  | .treatment sas base =>
+    if reduced then
+      match findBase sas base L with
+      | .error e => .error e
+      | .ok i => .ok (Contrasts.toRows (Contrasts.coding (.treatment i) n) n (n - 1))
+    else .ok (eyeRows n)
+  | .sum => .ok (if reduced then Contrasts.toRows (Contrasts.coding .sum n) n (n - 1) else eyeRows n)
+  | .helmert r sc => .ok (if reduced then Contrasts.toRows (Contrasts.coding (.helmert r sc) n) n (n - 1) else eyeRows n)
+  | .diff b => .ok (if reduced then Contrasts.toRows (Contrasts.coding (.diff b) n) n (n - 1) else eyeRows n)
+  | .poly scores tables =>
+    if reduced then
+      match Contrasts.polyScores scores n with
+      | .error _ => .error .valueError
+      | .ok sc =>
+        match tables.find? (fun t => t.1 == n) with
+        | some t => .ok t.2
+        | none =>
+          let cols := (Contrasts.polyTable sc (n - 1)).drop 1
+          .ok ((List.range n).map (fun i => cols.map (fun col => Contrasts.listFn col i)))
+    else .ok (eyeRows n)
+
+/-- `.L`, `.Q`, `.C`, then `^d` (generated `NAME_ALIASES`) -/
+def polyFieldName (d : Nat) : String :=
+  match FormulaicVerif.Gen.polyNameAliases.find? (fun p => p.1 == d) with
+  | some p => p.2
+  | none => "^" ++ toString d
+
+/-- `get_coding_column_names(levels, reduced_rank)`, printed (they are substituted for `{field}`) -/
+def codingFields (c : Contr) (L : List Val) (reduced : Bool) : Except Err (List String) :=
+  match c with
+  | .default => .ok ((if reduced then L.drop 1 else L).map Val.render)
+  | .treatment sas base =>
+    match findBase sas base L with      -- evaluated for the full-rank names as well
+    | .error e => .error e
+    | .ok i => .ok ((if reduced then L.eraseIdx i else L).map Val.render)
+  | .sum => .ok ((if reduced then L.dropLast else L).map Val.render)
+  | .helmert r _ => .ok ((if reduced then (if r then L.drop 1 else L.dropLast) else L).map Val.render)
+  | .diff b => .ok ((if reduced then (if b then L.drop 1 else L.dropLast) else L).map Val.render)
+  | .poly _ _ =>
+    .ok (if reduced then (List.range (L.length - 1)).map (fun d => polyFieldName (d + 1)) else L.map Val.render)
+  | .custom a =>
+    match customInit a with
+    | .error e => .error e
+    | .ok m =>
+      match m.names with
+      | some (x :: xs) => .ok (x :: xs)                                     -- `if self.contrast_names:`
+      | _ => .ok ((List.range m.ncols).map (fun j => toString (j + 1)))
+
+/-- one row of `pandas.get_dummies(Categorical(data, categories=levels))`: a cell that is not a level
+(an unseen value, a null) is the zero row -/
+def indRow (L : List Val) (c : Cell) : List Rat := L.map (fun l => if c = some l then 1 else 0)
+
+/-- entry `j` of the row `dummies[r, :] @ coding_matrix` -/
+def codedCell (L : List Val) (M : List (List Rat)) (j : Nat) (c : Cell) : Option Rat :=
+  some (Contrasts.dot (indRow L c) (Contrasts.column M j))
+
+/-- the encoded columns, one per coding column name -/
+def matrixColsFrom (mk : String → String) (cellsOf : Nat → List (Option Rat)) : Nat → List String → List EncCol
+  | _, [] => []
+  | j, f :: r => ⟨mk f, cellsOf j⟩ :: matrixColsFrom mk cellsOf (j + 1) r
+
+/-- `Contrasts.apply(dummies, levels, reduced_rank)` after the dummy coding of `cells` against
+`levels`, flattened with the factor's name format:
+* default / treatment / SAS: the `_apply` fast path — the dummy columns, minus the base level's;
+* every other contrast: `dummies @ coding_matrix` (ValueError when the matrix does not have one row
+  per level), named by `get_coding_column_names`;
+* no column at all for no level, or for one level under reduced rank. -/
+def codedColumns (expr : String) (c : Contr) (reduced : Bool) (L : List Val) (cells : List Cell) :
+    Except Err (List EncCol) :=
+  match c with
+  | .default => .ok (dummyColumns expr reduced L cells)
+  | .treatment sas base =>
+    if shortCircuit L reduced then .ok []
+    else
+      match findBase sas base L with
+      | .error e => .error e
+      | .ok i => .ok ((if reduced then L.eraseIdx i else L).map
+          (fun l => ⟨fieldName c expr reduced l.render, cells.map (indicator l)⟩))
+  | _ =>
+    if shortCircuit L reduced then .ok []
+    else
+      match codingMatrix c L reduced with
+      | .error e => .error e
+      | .ok M =>
+        if M.length ≠ L.length then .error .valueError
+        else
+          match codingFields c L reduced with
+          | .error e => .error e
+          | .ok fields =>
+            .ok (matrixColsFrom (fieldName c expr reduced) (fun j => cells.map (codedCell L M j)) 0 fields)
+
+/-- the `contrasts` and `levels` arguments `encode_contrasts` receives: those of the `C(…)` call; a bare
+categorical column goes through `_encode_categorical` with neither -/
+def callArgs (d : FactorDecl) : Contr × Option (List Val) :=
+  match d.via with
+  | .cwrap c ls => (c, ls)
+  | _ => (.default, none)
+
+/-- `levels if levels is not None else _state.get("categories")`, `_state` being
+`spec.encoder_state.get(expr, [None, {}])[1]` of the REAL spec -/
+def nominatedLevels (s : Spec) (d : FactorDecl) : Option (List Val) :=
+  match (callArgs d).2 with
+  | some ls => some ls
+  | none => (dget d.expr s.encoderState).bind (·.levels)
+
+/-- `CustomContrasts(contrasts)` for a dict / array handed to `C` (first thing `encode_contrasts` does) -/
+def contrInit : Contr → Except Err Unit
+  | .custom a =>
+    match customInit a with
+    | .error e => .error e
+    | .ok _ => .ok ()
+  | _ => .ok ()
+
+/-- the encoder of `C(…)` hands `encode_contrasts` no `output`, so `Contrasts.apply` sees the spec's own;
+its empty short-circuit is "only implemented for output types: 'pandas', 'numpy' or 'sparse'" and
+raises ValueError for `narwhals` (a bare categorical column goes through `_encode_categorical`, which
+asks for `pandas` instead) -/
+def encoderShortCircuitFails (out : Output) (via : Via) (L : List Val) (reduced : Bool) : Bool :=
+  match via, out with
+  | .cwrap _ _, .narwhals => shortCircuit L reduced
+  | _, _ => false
+
 /-- `_encode_evaled_factor(factor, spec, drop_rows, reduced_rank)` followed by
 `_flatten_encoded_evaled_factor`: the columns and whether a `DataMismatchWarning` was issued.
 The encoder state is read from the REAL spec: `spec.encoder_state.get(expr, [None, {}])[1]`. -/
@@ -353,9 +634,17 @@ def encodeFactor (s : Spec) (fr : Frame) (drop : List Nat) (ev : Evaled) (reduce
   match ev.kind with
   | .categorical =>
     let cells := dropRows drop ev.cells
-    let pinned := (dget ev.decl.expr s.encoderState).bind (·.levels)
-    let lw := pinnedLevels pinned ev.cats cells
-    .ok (dummyColumns ev.decl.expr reduced lw.1 cells, lw.2)
+    match contrInit (callArgs ev.decl).1 with
+    | .error e => .error e
+    | .ok () =>
+      match pinnedLevels (nominatedLevels s ev.decl) ev.cats cells with
+      | .error e => .error e
+      | .ok lw =>
+        if encoderShortCircuitFails s.output ev.decl.via lw.1 reduced then .error .valueError
+        else
+          match codedColumns ev.decl.expr (callArgs ev.decl).1 reduced lw.1 cells with
+          | .error e => .error e
+          | .ok cols => .ok (cols, lw.2)
   | .numerical =>
     match mapE numCell (dropRows drop ev.cells) with
     | .error e => .error e
@@ -557,10 +846,14 @@ def buildMatrix (s : Spec) (fr : Frame) (drop : List Nat) (cache : Cache) : Exce
     match enforceAll (List.replicate (nRetained fr drop) (some 0)) gens with
     | .error e => .error e
     | .ok fin =>
-      .ok { cols := fin.flatMap (·.2)
-            warn := w
-            branches := fin.map (·.1)
-            generated := gens.map (fun g => g.1.map (·.name)) }
+      -- `_combine_columns` of the narwhals materializer with no column at all and `output='narwhals'`:
+      -- `nw.from_native(numpy.empty((n, 0)))` is a TypeError (finding C09-F1)
+      if s.output = .narwhals ∧ fin.flatMap (·.2) = [] then .error .typeError
+      else
+        .ok { cols := fin.flatMap (·.2)
+              warn := w
+              branches := fin.map (·.1)
+              generated := gens.map (fun g => g.1.map (·.name)) }
 
 def buildAll (fr : Frame) (drop : List Nat) (cache : Cache) : List Spec → Except Err (List Result)
   | [] => .ok []
@@ -572,10 +865,40 @@ def buildAll (fr : Frame) (drop : List Nat) (cache : Cache) : List Spec → Exce
       | .error e => .error e
       | .ok ms => .ok (m :: ms)
 
-/-- `materializer.get_model_matrix(specs)` on recorded specs: pooled evaluation spec, factor
-evaluation in the set's iteration order `order`, then one matrix per spec.
+/-- the state a materializer OBJECT carries from one `get_model_matrix` call to the next (the object
+is built for one data set): its `factor_cache` (the encoded caches are not modelled) -/
+structure MatState where
+  factorCache : Cache
+deriving Repr
+
+/-- `materializer.get_model_matrix(specs)` on recorded specs, on a materializer object in state `m`:
+FIRST `self.factor_cache = {}` (the caches are valid within one call only), then the pooled
+evaluation spec, factor evaluation in the set's iteration order `order`, then one matrix per spec.
+Returns the state the object is left in (also when the call fails after the evaluation phase).
 (The `encoded_cache` shared between the parts of a multi-part spec is not modelled: it is
 unobservable unless two parts record different encoder state for the same factor.) -/
+def getModelMatrix (_m : MatState) (specs : List Spec) (fr : Frame) (order : List String) :
+    MatState × Except Err (List Result) :=
+  let cache0 : Cache := []                                  -- `self.factor_cache = {}`
+  match prepareEvalSpec specs with
+  | .error e => (⟨cache0⟩, .error e)
+  | .ok es =>
+    match evalPhase es fr (orderedFactors specs order) cache0 [] with
+    | .error e => (⟨cache0⟩, .error e)                      -- (entries made before the failure are not tracked)
+    | .ok (cache, drop) => (⟨cache⟩, buildAll fr drop cache specs)
+
+/-- the same call WITHOUT the reset (the behaviour the reset exists to prevent; used only as a
+negative witness in `Props/C09.lean`) -/
+def getModelMatrixNoReset (m : MatState) (specs : List Spec) (fr : Frame) (order : List String) :
+    Except Err (List Result) :=
+  match prepareEvalSpec specs with
+  | .error e => .error e
+  | .ok es =>
+    match evalPhase es fr (orderedFactors specs order) m.factorCache [] with
+    | .error e => .error e
+    | .ok (cache, drop) => buildAll fr drop cache specs
+
+/-- `spec.get_model_matrix(data)`: a NEW materializer for the data, then `get_model_matrix(spec)` -/
 def replay (specs : List Spec) (fr : Frame) (order : List String) : Except Err (List Result) :=
   match prepareEvalSpec specs with
   | .error e => .error e
@@ -583,6 +906,99 @@ def replay (specs : List Spec) (fr : Frame) (order : List String) : Except Err (
     match evalPhase es fr (orderedFactors specs order) [] [] with
     | .error e => .error e
     | .ok (cache, drop) => buildAll fr drop cache specs
+
+/-! ### what an application leaves behind in the caller's spec
+
+`_prepare_model_specs` works on a copy of the `encoder_state` dictionary, but the per-factor state
+dictionaries inside it are shared with the caller's spec, and `encode_contrasts` ends with
+`_state["categories"] = categories`. -/
+
+/-- the categories `encode_contrasts` writes back for an evaluated factor (`none`: not categorical, or
+the encoding fails before the write) -/
+def levelsUsed (s : Spec) (drop : List Nat) (ev : Evaled) : Option (List Val) :=
+  match ev.kind with
+  | .categorical =>
+    match contrInit (callArgs ev.decl).1 with
+    | .error _ => none
+    | .ok () =>
+      match pinnedLevels (nominatedLevels s ev.decl) ev.cats (dropRows drop ev.cells) with
+      | .error _ => none
+      | .ok lw => some lw.1
+  | _ => none
+
+/-- `_state["categories"] = L` on the state dictionary the spec holds for `expr` (a factor without an
+entry gets a fresh dictionary that the caller's spec never sees) -/
+def writeBack (enc : List (String × RecState)) (expr : String) (L : List Val) : List (String × RecState) :=
+  enc.map (fun kr => if kr.1 = expr then (kr.1, { kr.2 with levels := some L }) else kr)
+
+/-- the scoped factors of the recorded structure: each is encoded against the spec's own state -/
+def encodedFactors (s : Spec) : List ScopedFactor :=
+  s.structure_.flatMap (fun t => t.scopedTerms.flatMap (fun st => st.factors))
+
+/-- what encoding one scoped factor does to the state dictionaries the caller's spec holds -/
+def writeStep (s : Spec) (drop : List Nat) (cache : Cache) (enc : List (String × RecState)) (sf : ScopedFactor) :
+    List (String × RecState) :=
+  match dget sf.expr cache with
+  | none => enc
+  | some ev =>
+    match levelsUsed s drop ev with
+    | none => enc
+    | some L => writeBack enc sf.expr L
+
+/-- the caller's spec after a SUCCESSFUL application. (Every factor is encoded against the spec as it
+was handed over: NOT MODELLED is that, within one application, a second encoding of a factor without
+recorded categories — the other rank — already sees what the first one wrote, and therefore reports a
+retained null as unmatched.) -/
+def specAfter (s : Spec) (drop : List Nat) (cache : Cache) : Spec :=
+  { s with encoderState := (encodedFactors s).foldl (writeStep s drop cache) s.encoderState }
+
+/-- `replay`, together with the specs as the application leaves them -/
+def replayState (specs : List Spec) (fr : Frame) (order : List String) :
+    Except Err (List Result × List Spec) :=
+  match prepareEvalSpec specs with
+  | .error e => .error e
+  | .ok es =>
+    match evalPhase es fr (orderedFactors specs order) [] [] with
+    | .error e => .error e
+    | .ok (cache, drop) =>
+      match buildAll fr drop cache specs with
+      | .error e => .error e
+      | .ok rs => .ok (rs, specs.map (fun s => specAfter s drop cache))
+
+/-- a session: one recorded spec list applied to several data sets in turn, each application
+starting from the specs as the previous one left them (a failed application leaves them as they were:
+NOT MODELLED — a failure after some factors were encoded may have written their categories) -/
+def session (specs : List Spec) : List (Frame × List String) → List (Except Err (List Result))
+  | [] => []
+  | (fr, order) :: rest =>
+    match replayState specs fr order with
+    | .error e => .error e :: session specs rest
+    | .ok (rs, specs') => .ok rs :: session specs' rest
+
+/-! ### `get_model_matrix(data, **attr_overrides)` -/
+
+/-- the overrides of the reuse call: `self.update(**attr_overrides)` on every spec before anything else -/
+structure Overrides where
+  naAction : Option NaAction := none
+  output : Option Output := none
+  ensureFullRank : Option Bool := none
+deriving DecidableEq, Repr
+
+def Overrides.apply (o : Overrides) (s : Spec) : Spec :=
+  { s with
+    naAction := match o.naAction with
+      | some v => v
+      | none => s.naAction
+    output := match o.output with
+      | some v => v
+      | none => s.output
+    ensureFullRank := match o.ensureFullRank with
+      | some v => v
+      | none => s.ensureFullRank }
+
+def replayWith (o : Overrides) (specs : List Spec) (fr : Frame) (order : List String) :
+    Except Err (List Result) :=
+  replay (specs.map o.apply) fr order
 
 /-! ### histories between the fit and the reuse: specs DERIVED from a recorded spec
 
@@ -625,6 +1041,8 @@ inductive Step
   | part (i : Nat)               -- one part of a multi-part spec used on its own
   | subset (picks : List Nat)    -- `ModelSpec.subset` (a single spec only)
   | roundTrip                    -- `pickle.loads(pickle.dumps(spec))`: the dataclass fields verbatim
+  | subsetAll (picks : List (List Nat))
+                                 -- `ModelSpecs.subset(formula of the same layout)`: part `i` restricted to `picks[i]`
 deriving DecidableEq, Repr
 
 def applyStep (specs : List Spec) : Step → Except Err (List Spec)
@@ -640,6 +1058,11 @@ def applyStep (specs : List Spec) : Step → Except Err (List Spec)
       | .ok s' => .ok [s']
     | _ => .error .typeError      -- a `ModelSpecs` container has no `subset`
   | .roundTrip => .ok specs
+  | .subsetAll pss =>
+    -- `formula._map(lambda f, ctx: self[ctx].subset(f))`: the result has the parts of the nominating
+    -- formula; a part the specs do not have is an IndexError (only KeyError is translated to ValueError)
+    if pss.length > specs.length then .error .indexError
+    else mapE (fun sp => subsetSpec sp.1 sp.2) (specs.zip pss)
 
 def derive : List Spec → List Step → Except Err (List Spec)
   | specs, [] => .ok specs
@@ -654,5 +1077,12 @@ def replayDerived (specs : List Spec) (steps : List Step) (fr : Frame) (order : 
   match derive specs steps with
   | .error e => .error e
   | .ok specs' => replay specs' fr order
+
+/-- reuse of a derived spec with `attr_overrides` on the call -/
+def replayDerivedWith (o : Overrides) (specs : List Spec) (steps : List Step) (fr : Frame)
+    (order : List String) : Except Err (List Result) :=
+  match derive specs steps with
+  | .error e => .error e
+  | .ok specs' => replayWith o specs' fr order
 
 end FormulaicVerif.Model.Reuse
